@@ -75,5 +75,34 @@ impl AsmLine {
 //@end
 }
 
+// ---- the executable reference used by the Kani twin (kani/harness/ref_enc.rs) is proved equal to the spec
+// props: C01, C04
+pub assume_specification [i32::rem_euclid] (a: i32, b: i32) -> (r: i32)
+    requires b > 0,
+    ensures r as int == (a as int) % (b as int);
+
+//@fn verif:kani/harness/ref_enc.rs - pcoff_ref ret=r props=C01,C04
+        requires 9 <= bits <= 11,
+        ensures r == pcoff_spec(label_line, line, bits as int),
+//@sub <<<let (half, full): (i32, i32) = match bits {>>> ==> <<<proof { reveal(dist16); reveal(pcoff_spec); }
+    let (half, full): (i32, i32) = match bits {>>>
+//@end
+//@fn verif:kani/harness/ref_enc.rs - with_off_ref ret=r props=C01
+        ensures r == with_off(base, o),
+//@end
+//@fn verif:kani/harness/ref_enc.rs - lbl_ref ret=r props=C01
+        ensures l is Ref ==> r == lbl(*l),
+//@end
+//@fn verif:kani/harness/ref_enc.rs - immreg_ref ret=r props=C01
+        ensures r == immreg_spec(*x),
+//@end
+//@fn verif:kani/harness/ref_enc.rs - flag_ref ret=r props=C01
+        ensures r == flag_bits(*f),
+//@end
+//@fn verif:kani/harness/ref_enc.rs - enc_ref ret=r props=C01,C04
+        requires stmt_labels_filled(*s),
+        ensures r == enc_spec(*s, line),
+//@end
+
 } // verus!
 fn main() {}
